@@ -286,8 +286,13 @@ class C18(core.Check):
                  "on every run at description level and at string level; extracted-model correspondence on raw strings over the "
                  "whole finite string domain plus malformed strings; CPython primitive models validated per code point; "
                  "xterm-table / round-trip oracle")
-    level_text = ("Proved in Coq (33 theorems, all closed under the global context) about a model that now CONTAINS THE STRING "
-                  "LEXING: strings are lists of code points; split(','), strip(), the setting / colour name tables, startswith, len, "
+    level_text = ("Proved in Coq (40 theorems, all closed under the global context).  The METHODS of AttrSpec (__init__, "
+                  "__set_foreground with its loop, __set_background, _foreground_color, foreground, background, get_rgb_values, "
+                  "copy_modified, __eq__) are now re-translated from display/common.py on every run too; the extracted model compared "
+                  "with the implementation runs the translated functions, and they are proved equal, for all inputs, to the "
+                  "hand-written form in which the theorems are proved (translated_methods_are_the_model), so round trip, rejection, "
+                  "reported depth, RGB and copy_modified() == self hold of the translated code for every pair of strings.  The model "
+                  "CONTAINS THE STRING LEXING: strings are lists of code points; split(','), strip(), the setting / colour name tables, startswith, len, "
                   "slicing, int(s, 10/16) with CPython's acceptance rules (white space, sign, '0x' + one '_', single underscores, "
                   "Unicode decimal digits and spaces) and the f-string formatting are Gallina functions, and _parse_color_* / "
                   "_color_desc_* / _true_to_256 are re-translated from display/common.py on strings without any abstraction.  For "
@@ -310,8 +315,9 @@ class C18(core.Check):
     level_note = ("Trusted: Coq kernel (vm_compute), tools/py2v/mods/colours.py (ColTr/StrTr subclasses of Tr: constants, "
                   "comprehensions, for/extend loop, checked subscripts, walrus, try/except ValueError around int(), string slices, "
                   "f-strings, ''.join over a tuple; the description-level ABS table is now only a proof device), ExtrOcamlBasic "
-                  "extraction + driver.ml, the hand model of AttrSpec.__init__/__set_foreground/__set_background/foreground/"
-                  "background/get_rgb_values on strings (validated by the exact correspondence), the Gallina model of CPython's "
+                  "extraction + driver.ml, the MethTr translation of the AttrSpec methods (state threading of self.__value, the "
+                  "split loop as a fold, raise sites numbered by message; the hand model is no longer trusted: it is proved equal "
+                  "to the translation), the Gallina model of CPython's "
                   "int()/str.strip()/str.isspace()/str.split() with its two Unicode 15.0 tables (validated against the running "
                   "interpreter for all 1,114,112 code points each run), the oracle's xterm reference tables.")
     rule = ("case = (foreground string, background string, declared depth).  Exhaustive: every colour string of the finite "
@@ -327,7 +333,7 @@ class C18(core.Check):
         "tools/py2v/mods/colours.py (ColTr and StrTr, subclasses of py2v_core.Tr; Gen/colours_gen.v regenerated from display/common.py and util.py every run, description level and string level)",
         "Base/ColourStr.v: the Gallina model of CPython 3.12 int(str, 10/16), str.strip, str.split(','), str.startswith, slicing and format(n, 'd'/'x'/'06x'), with the Unicode 15.0 white-space and Nd tables (compared with the running interpreter for every code point and exhaustively on short strings each run)",
         "extraction: ExtrOcamlBasic only; Z/positive stay Coq datatypes; OCaml 4.13.1; tools/driver/driver.ml",
-        "hand model Model/Colours.v of __init__, __set_foreground, __set_background, _foreground_color, foreground, background, get_rgb_values at string level (validated by this correspondence on raw strings, not proved against Python)",
+        "MethTr in tools/py2v/mods/colours.py: the AttrSpec methods (__init__, __set_foreground, __set_background, _foreground_color, foreground, background, get_rgb_values, copy_modified, __eq__) are translated each run; the hand model in Model/Colours.v is proved equal to the translation (Proofs/ColoursGenMeth.v) and is no longer part of the trusted base",
         "Python oracle in harness/props/c18.py with its own xterm reference tables (XTerm-col.ad basic colours, 256colres.h / 88colres.h closed forms)",
     ]
     assumptions = [
@@ -336,7 +342,8 @@ class C18(core.Check):
         "__eq__/__hash__ are modelled as equality / a function of the packed value (hash((class, value)))",
         "'gNN' is read as NN percent scaled by int_scale(NN, 101, 256); the oracle accepts the nearest gray of either rounding of NN*2.55, and both nearest entries on a tie",
         "at 2^24 colours the oracle accepts for '#rgb'/'gNN'/'g#XX' both the 256-palette entry (what the library does) and the exact expansion; '#rrggbb' at 88/256 colours is not judged for RGB (only round trip, depth, exception class)",
-        "copy_modified, __repr__ and the display-side use of AttrSpec are not modelled",
+        "__eq__ is translated under the typing assumption isinstance(other, AttrSpec); __hash__ is a function of the packed value (hash((class, value)))",
+        "__repr__ and the display-side use of AttrSpec are not modelled",
     ]
 
     # ---------- CPython primitives the string-level model relies on (validated, not judged) ----------
@@ -402,8 +409,21 @@ class C18(core.Check):
         if a is None:
             return {"err": err[0], "why": err[1]}
         rgb = guarded(lambda: list(a.get_rgb_values()))
-        return {"value": a._value, "colors": a.colors, "fg": guarded(lambda: a.foreground),
-                "bg": guarded(lambda: a.background), "rgb": rgb}
+        out = {"value": a._value, "colors": a.colors, "fg": guarded(lambda: a.foreground),
+               "bg": guarded(lambda: a.background), "rgb": rgb}
+        if case.get("op") != "lex":
+            out["copy"] = self.copy_of(a)
+        return out
+
+    @staticmethod
+    def copy_of(a):
+        from urwid.display.common import AttrSpecError
+        try:
+            return a.copy_modified()._value
+        except AttrSpecError as e:
+            return {"exc": "AttrSpecError", "why": next((c for s_, c in WHY if s_ in str(e)), 0)}
+        except Exception as e:  # noqa: BLE001
+            return {"exc": type(e).__name__, "why": 0}
 
     # ---------- model wire format ----------
     def encode(self, case):
@@ -456,15 +476,13 @@ class C18(core.Check):
             out["fg"] = take_str()
             out["bg"] = take_str()
             if next(it):
-                rgb = []
-                for _ in range(2):
-                    if next(it):
-                        rgb += [next(it), next(it), next(it)]
-                    else:
-                        rgb += [None, None, None]
-                out["rgb"] = rgb
+                out["rgb"] = [next(it) if next(it) else None for _ in range(6)]
             else:
                 out["rgb"] = {"exc": ERRN.get(next(it), "?")}
+            if next(it):
+                out["copy"] = next(it)
+            else:
+                out["copy"] = {"exc": ERRN.get(next(it), "?"), "why": next(it)}
             return out
         except (StopIteration, ValueError):
             return {"malformed": ints[:40]}
@@ -578,6 +596,9 @@ class C18(core.Check):
                     if s is not None and s == a:
                         msgs.append(f"depth-minimal: reported depth {rep} but depth {d} already expresses AttrSpec({nfg!r}, {nbg!r})")
                         break
+        # --- copy_modified() with no argument is that rebuild: it must give an equal specification
+        if "copy" in res and res["copy"] != res["value"]:
+            msgs.append(f"copy: AttrSpec({fg!r}, {bg!r}, {depth}).copy_modified() is not an equal specification ({res['copy']!r})")
         # --- valid specifications: settings kept, colours mapped to the nearest palette entry, xterm RGB values
         if ref == "valid":
             rs = [p for p in nfg.split(",")[1:]]
